@@ -23,20 +23,20 @@ Inductive op :=
 Inductive ret := RUnit | RHead (h : ores) | RCan (b : bool) | RConf (ok : bool) | RCrash.
 
 (* one call of the Manager API; [None] = the process panicked *)
-Definition step_gen (lowerfix ord : bool) (s : ugm_state) (o : op) : option ugm_state * ret :=
+Definition step_gen (fixed : bool) (pg : list (path * gname) -> list (path * gname)) (ord : bool) (s : ugm_state) (o : op) : option ugm_state * ret :=
   match o with
   | OInc p a r u _ => (Some (ugm_increase s p a r u), RUnit)
   | ODec p a r u rm => (Some (ugm_decrease s p a r u rm), RUnit)
   | OHeadroom p a u => let '(s', h) := ugm_headroom s p a u in (Some s', RHead h)
   | OCanRun p a u => let '(s', b) := ugm_can_run_app s p a u in (Some s', RCan b)
   | OConfig c rn =>
-      match update_config_gen lowerfix ord s c rn with
+      match update_config_gen fixed pg ord s c rn with
       | UOk s' => (Some s', RConf true)
       | UErr s' => (Some s', RConf false)
       | UCrash => (None, RCrash)
       end
   end.
-Definition step := step_gen true false.
+Definition step := step_gen true (fun l => l) false.
 Fixpoint run (s : ugm_state) (ops : list op) : option ugm_state :=
   match ops with
   | [] => Some s
